@@ -125,12 +125,11 @@ STREAM_INV = ["ChunkConcat", "MatchPrefix", "Complete", "Indices", "NoFalseEof",
 def c05(ck, thorough):
     """prefilter transparency"""
     mc(ck, "ACPrefilterMC", "c05_prefilter",
-       {"Sigma": tla_set([97, 65, 98]), "MaxPats": 2, "MaxPatLen": 2 if not thorough else 3,
-        "MaxHay": 4, "Kinds": tla_set(ALLK), "CIs": tla_set([False, True])},
+       {"Sigma": tla_set([97, 65, 98]), "MaxPats": 2, "MaxPatLen": 2,
+        "MaxHay": 5 if thorough else 4, "Kinds": tla_set(ALLK), "CIs": tla_set([False, True])},
        ["AdmissibleIsSound"])
-    mc(ck, "ACSearch", "c05_search",
-       search_consts(ALLK, [False], [False, True], [True], thorough, sigma=(1, 2, 3) if thorough else (1, 2)),
-       SEARCH_INV, ["PositionMonotone"])
+    sc = search_consts(ALLK, [False], [False, True], [True], False, sigma=(1, 2, 3) if thorough else (1, 2))
+    mc(ck, "ACSearch", "c05_search", sc, SEARCH_INV, ["PositionMonotone"])
     mc(ck, "ACOverlap", "c05_overlap", overlap_consts([False], [True], thorough),
        ["OverlapCorrect", "StateSane"], view="View")
     calls(ck, "c05_prefilter", "prefilter", scale=4 if thorough else 1, mks=ALLK, an="both", flav="all")
